@@ -211,7 +211,14 @@ def run_case(spec):
     evspecs = []
     if spec["kind"] == "boundary":
         for c in (0.5, 1.0, 1.5):
-            evspecs.append({"kind": "time", "scale": float(10 ** rng.uniform(-3, 3)) * float(rng.choice([-1, 1])), "c": c, "direction": 0, "terminal": False})
+            # (one-sided requests too: a root exactly on a step boundary must pass the direction filter only in the sense it really crosses)
+            evspecs.append({"kind": "time", "scale": float(10 ** rng.uniform(-3, 3)) * float(rng.choice([-1, 1])), "c": c, "direction": int(rng.choice([-1, 0, 1])), "terminal": False})
+        # ... and twin functions on the same boundary roots with the OPPOSITE sign of scale and a one-sided request: exactly one of each pair may report
+        for c in (0.5, 1.5):
+            sc_ = float(10 ** rng.uniform(-3, 3))
+            dr_ = int(rng.choice([-1, 1]))
+            evspecs.append({"kind": "time", "scale": sc_, "c": c, "direction": dr_, "terminal": False})
+            evspecs.append({"kind": "time", "scale": -sc_, "c": c, "direction": dr_, "terminal": False})
         if spec.get("shared"):
             # two events share a step and one root is on its boundary: companions cross strictly inside the step BEFORE (0.5, 1.5) or AFTER (1.0)
             # the boundary root, along the direction of integration (dt = 1/16)
